@@ -42,5 +42,9 @@ def run(chk):
         lines += gen_shapes.make_cases(chk.seed * 1000 + i, n, kinds, steps=3, ops=[op, op, op, "add_constraint", "closure"], pq=0.15, start=cid)
         cid += n
     lines += gen_shapes.make_cases(chk.seed * 7919 + 3, nmix, kinds, steps=6, pq=0.3, start=cid)
+    # targeted cases: half-open boxes with constraints touching their ends, equalities whose coefficient does not divide the
+    # constant (refine_* and converting constructors, every carrier), general-form affine transformers on bounded shapes,
+    # queries in the lazy state after dimension changes vs a twin, differences with straddled equalities
+    lines += gen_shapes.make_targeted(chk.seed * 104729 + 5, 480 if chk.quick else 9000, kinds)
     out, byid = shapescheck.run_cases(chk, "C03", shapescheck.corpus_cases("C03") + lines, "c03", owner)
     shapescheck.account(chk, out, byid, "C03_* (closure / refine / meet / join / forget never cut a point; definite answers) + verified inclusion test incl_sys")
